@@ -1,6 +1,7 @@
 package main
 
 import (
+	"go/constant"
 	"fmt"
 	"go/token"
 	"go/types"
@@ -28,6 +29,7 @@ func init() {
 			ruleC18T11(r)
 			ruleDurationUnits(r, "T12", "/transport/reconnect", "/internal/retry", "/transport")
 			ruleCheckThenActAtomic(r, "T13", "/transport/reconnect", "/internal/retry")
+			ruleNoChanBlockUnderCloseLocks(r, le, "T14")
 		},
 	})
 }
@@ -157,43 +159,107 @@ func ruleC18T3T4(r *Run) {
 	// T3
 	{
 		name := fnName(wl)
-		wl := loopWithRedial(p, wl, rec) // the retry body may have been moved into a helper of the loop
-		var recCall *ssa.Call
+		// the function that performs the transport write: the loop itself, or the helper its retry body was moved to
+		{
+			hasWrite := func(f *ssa.Function) bool {
+				return len(findCalls(f, false, "/transport.Transport.Write", "/transport.Writer.Write", "/transport.ReadWriter.Write")) > 0
+			}
+			if !hasWrite(wl) {
+				allInstrs(wl, func(ins ssa.Instruction) {
+					if c, ok := ins.(*ssa.Call); ok {
+						if cf := c.Call.StaticCallee(); cf != nil && p.Analysed(cf) && cf.Blocks != nil && hasWrite(cf) {
+							wl = cf
+						}
+					}
+				})
+			}
+		}
+		// the redial as the write loop sees it: the call of reconnect itself (success = nil error), or the call of a
+		// helper around it that reports success as a bool which is true only on reconnect's nil-error edge
+		var site *ssa.Call
+		var succ []*ssa.BasicBlock
 		var write ssa.Instruction
 		allInstrs(wl, func(ins ssa.Instruction) {
-			if c, ok := ins.(*ssa.Call); ok && c.Call.StaticCallee() == rec {
-				recCall = c
-			}
 			if isCallNamed(ins, "/transport.Transport.Write", "/transport.Writer.Write", "/transport.ReadWriter.Write") {
 				write = ins
 			}
-		})
-		ok := false
-		if recCall != nil && write != nil {
-			// success edge of reconnect
-			for _, ev := range errResultsOf(recCall) {
-				for _, ifs := range nilTestsOf(wl, ev) {
-					bo := ifs.Cond.(*ssa.BinOp)
-					ne := nilEdge(ifs, bo.X)
-					if ne == nil {
-						ne = nilEdge(ifs, bo.Y)
+			c, ok := ins.(*ssa.Call)
+			if !ok {
+				return
+			}
+			cal := c.Call.StaticCallee()
+			if cal == rec {
+				site = c
+				for _, ev := range errResultsOf(c) {
+					for _, ifs := range nilTestsOf(wl, ev) {
+						bo := ifs.Cond.(*ssa.BinOp)
+						ne := nilEdge(ifs, bo.X)
+						if ne == nil {
+							ne = nilEdge(ifs, bo.Y)
+						}
+						if ne != nil {
+							succ = append(succ, ne)
+						}
 					}
-					if ne == nil {
-						continue
+				}
+				return
+			}
+			if cal == nil || !p.Analysed(cal) || cal.Blocks == nil || c.Referrers() == nil {
+				return
+			}
+			var inner *ssa.Call
+			allInstrs(cal, func(x ssa.Instruction) {
+				if c2, isC := x.(*ssa.Call); isC && c2.Call.StaticCallee() == rec {
+					inner = c2
+				}
+			})
+			if inner == nil || !types.Identical(c.Type(), types.Typ[types.Bool]) {
+				return
+			}
+			truthful := true
+			allInstrs(cal, func(x ssa.Instruction) {
+				if ret, isRet := x.(*ssa.Return); isRet {
+					for _, rv := range retResults(ret) {
+						if k, isK := rv.(*ssa.Const); isK && k.Value != nil && k.Value.Kind() == constant.Bool && k.Value.String() == "true" && !guardedByNilErr(inner, ret) {
+							truthful = false
+						}
 					}
-					w := reachesWithoutFromBlock(ne, func(ins ssa.Instruction) bool { return ins == write }, func(ins ssa.Instruction) bool {
-						if sel, isSel := ins.(*ssa.Select); isSel {
-							for _, st := range sel.States {
-								if st.Dir == types.RecvOnly && hasLeaf(p.Leaves(st.Chan, provOpts{}), "field:"+rcPkg+".Transport.writeReqCh") {
-									return true
-								}
+				}
+			})
+			if !truthful {
+				return
+			}
+			site = c
+			for _, ref := range *c.Referrers() {
+				switch y := ref.(type) {
+				case *ssa.If:
+					succ = append(succ, y.Block().Succs[0])
+				case *ssa.UnOp:
+					if y.Op == token.NOT && y.Referrers() != nil {
+						for _, r2 := range *y.Referrers() {
+							if ifs, isIf := r2.(*ssa.If); isIf {
+								succ = append(succ, ifs.Block().Succs[1])
 							}
 						}
-						return false
-					})
-					if w != nil {
-						ok = true
 					}
+				}
+			}
+		})
+		ok := false
+		if site != nil && write != nil {
+			for _, ne := range succ {
+				w := reachesWithoutFromBlock(ne, func(ins ssa.Instruction) bool { return ins == write }, func(ins ssa.Instruction) bool {
+					if sel, isSel := ins.(*ssa.Select); isSel {
+						for _, st := range sel.States {
+							if st.Dir == types.RecvOnly && hasLeaf(p.Leaves(st.Chan, provOpts{}), "field:"+rcPkg+".Transport.writeReqCh") {
+								return true
+							}
+						}
+					}
+					return false
+				})
+				if w != nil {
+					ok = true
 				}
 			}
 		}
@@ -609,7 +675,7 @@ func ruleC18T8(r *Run) {
 // That guard only works if each loop passes the connection its own Read/Write just failed on — the value it took out
 // of Transport.transport before the call — and not a fresh read of the field.
 func ruleC18T10(r *Run) {
-	r.Begin("T10", "reconnect is told which connection failed: in the read loop and the write loop the argument of reconnect is the very value the failing Read/Write was invoked on", 2)
+	r.Begin("T10", "reconnect is told which connection failed: in the read loop and the write loop the argument of reconnect is the very value the failing Read/Write was invoked on (followed through a shared redial helper to its call sites)", 1)
 	p := r.P
 	rc := r.method(rcPkg, "Transport", "reconnect")
 	if rc == nil {
@@ -622,17 +688,37 @@ func ruleC18T10(r *Run) {
 			rc, argIdx = w, j // reconnectLocked(old): the loops call the wrapper
 		}
 	}
-	for _, site := range p.staticCallSites(rc) {
+	var failedOn func(site ssa.Instruction, idx, depth int) (bool, string)
+	failedOn = func(site ssa.Instruction, idx, depth int) (bool, string) {
 		fn := site.Parent()
 		cc := instrCall(site)
-		if len(cc.Args) <= argIdx {
-			continue
+		if cc == nil || len(cc.Args) <= idx {
+			return false, ""
 		}
-		n++
-		name := fnName(fn)
-		arg := canonVal(cc.Args[argIdx])
+		arg := canonVal(cc.Args[idx])
+		// handed down through a helper (redial(loop, old, …)): judged at the helper's call sites
+		if prm, isP := arg.(*ssa.Parameter); isP && prm.Parent() == fn && depth < 2 && fn.Parent() == nil && (fn.Object() == nil || !fn.Object().Exported()) {
+			j := -1
+			for i, q := range fn.Params {
+				if q == prm {
+					j = i
+				}
+			}
+			sites := p.staticCallSites(fn)
+			if j >= 0 && len(sites) > 0 {
+				all, io := true, ""
+				for _, s2 := range sites {
+					ok2, io2 := failedOn(s2, j, depth+1)
+					if !ok2 {
+						all = false
+					}
+					io = io2
+				}
+				return all, io
+			}
+		}
 		ok := false
-		var ioName string
+		ioName := ""
 		allInstrs(fn, func(ins ssa.Instruction) {
 			c, isCall := ins.(*ssa.Call)
 			if !isCall || !c.Call.IsInvoke() || (c.Call.Method.Name() != "Read" && c.Call.Method.Name() != "Write") {
@@ -646,6 +732,17 @@ func ruleC18T10(r *Run) {
 				ok = true
 			}
 		})
+		return ok, ioName
+	}
+	for _, site := range p.staticCallSites(rc) {
+		fn := site.Parent()
+		cc := instrCall(site)
+		if len(cc.Args) <= argIdx {
+			continue
+		}
+		n++
+		name := fnName(fn)
+		ok, ioName := failedOn(site, argIdx, 0)
 		r.Check(name+" reconnect argument", ok, posOf(p, site), name, "reconnect is called with "+pathOf(cc.Args[argIdx]).String()+"; it must be the connection value on which "+ioName+" just failed (a fresh read of Transport.transport is the new connection once the other loop has redialled, and closing it tears the healthy connection down)")
 	}
 	if n == 0 {
@@ -722,7 +819,7 @@ func goRootOf(p *Prog, fn *ssa.Function) *ssa.Function {
 }
 
 // loopWithRedial returns the function that contains the reconnect call belonging to the named loop: the loop itself,
-// or the helper into which its retry body was moved (a function called only from that loop).
+// or the helper into which its retry body was moved (called from that loop; both loops may share it).
 func loopWithRedial(p *Prog, loop, rc *ssa.Function) *ssa.Function {
 	has := func(f *ssa.Function) bool {
 		found := false
@@ -739,7 +836,7 @@ func loopWithRedial(p *Prog, loop, rc *ssa.Function) *ssa.Function {
 	var out *ssa.Function
 	allInstrs(loop, func(ins ssa.Instruction) {
 		if c, ok := ins.(*ssa.Call); ok {
-			if cf := c.Call.StaticCallee(); cf != nil && p.Analysed(cf) && has(cf) && len(p.staticCallSites(cf)) == 1 {
+			if cf := c.Call.StaticCallee(); cf != nil && p.Analysed(cf) && has(cf) {
 				out = cf
 			}
 		}
